@@ -329,6 +329,114 @@ def gen_held_case(r):
     return {"cfgs": cfgs, "ev": ev, "kind": "held"}
 
 
+# ---------------------------------------------------------------- server side: Observe notifications
+def gen_observe_case(r):
+    """one session is a SERVER session with a registered observer; Confirmable notifications are
+    generated and sent INSIDE coap_io_prepare_epoll (event O): the wait that very call reports must
+    cover the notification's deadline; afterwards it is a Confirmable like any other.  One
+    notification at a time (they all carry the observer's token)."""
+    ns = r.choice([1, 2, 2, 3])
+    cfgs = [rand_cfg(r, nstart=r.choice([1, 1000])) for _ in range(ns)]
+    so = r.randrange(ns)
+    c = list(cfgs[so]); c[4] = r.choice([1, 2, 3, 4]); cfgs[so] = tuple(c)
+    mx = max(eff_max(c) for c in cfgs)
+    ev = [["G", so, hexb([r.randrange(256) for _ in range(r.choice([1, 2, 4, 8]))])]]
+    sent = []
+    mid = 100
+    for _ in range(r.randrange(1, 5)):
+        if ns > 1 and r.random() < 0.5:
+            s = r.choice([x for x in range(ns) if x != so])
+            m = rand_msg(r, s, mid)
+            mid += 1
+            sent.append(m)
+            ev.append(m)
+            ev.append(["A", r.choice([0, 1, 300, 1200])])
+        ev.append(["O", so, r.choice(R_BOUNDS + [r.randrange(256)])])
+        x = r.random()
+        if x < 0.35:                      # the peer acknowledges (after some retransmissions)
+            ev += drain(r.randrange(0, 3))
+            ev += [["A", r.choice([0, 1, 500])], ["K", so, "L"]]
+        elif x < 0.5:
+            ev += drain(r.randrange(0, 2))
+            ev += [["A", r.choice([0, 700])], ["R", so, "L"]]
+        elif x < 0.7:                     # the library's own loop sleeps as long as it reported
+            ev += [["I", 0]] * ((mx + 2) * (len(sent) + 1))
+        else:                             # lost: punctual driver until it is given up
+            ev += drain((mx + 2) * (len(sent) + 1), r.choice([0, 0, 5]))
+        if r.random() < 0.3:
+            ev.append(["Q"])
+    ev += drain((mx + 2) * (len(sent) + 1))
+    ev += [["T"], ["Q"]]
+    return {"cfgs": cfgs, "ev": ev, "kind": "observe"}
+
+
+def gen_timers_case(r, opts=None):
+    """contexts whose prepare call has OTHER timers to report besides the send queue: block mode with a
+    stalled Block1 upload (state of the large transmit, and of every request's large receive, expires),
+    keep-alive (Confirmable pings sent from inside the prepare call), an idle server session.  A driver
+    that sleeps exactly as long as the library said enters the loop on every one of those deadlines,
+    while Confirmables are pending: the reported wait must never pass the earliest retransmission."""
+    ns = r.choice([2, 2, 3])
+    if opts is None:
+        opts = r.choice(["B", "B", "B", "E", "M", "BE", "BM", "EM", "BEM"])
+    cfgs = []
+    for k in range(ns):
+        if k == 0:      # the uploader: MAX_TRANSMIT_WAIT of a few seconds
+            at = r.choice([(1, 0), (1, 0), (1, 500), (2, 0)])
+            arf = r.choice([(1, 0), (1, 0), (1, 500), (2, 0)])
+            cfgs.append((at[0], at[1], arf[0], arf[1], r.choice([1, 2, 2, 3]), r.choice([1, 2, 3])))
+        else:           # the others keep Confirmables pending for a long time
+            at = r.choice([(1, 0), (2, 0), (2, 0), (3, 125), (2, 500)])
+            arf = r.choice([(1, 0), (1, 500), (1, 0), (2, 0)])
+            cfgs.append((at[0], at[1], arf[0], arf[1], r.choice([3, 4, 4, 5]), r.choice([1, 2, 3])))
+    ev = []
+    if "B" in opts:
+        ev.append(["B", 1])
+    if "E" in opts:
+        # with keep-alive on, coap_retransmit clamps every back-off delay to the keep-alive period (an upstream
+        # feature outside the model): the period is chosen above the longest delay of these sessions
+        cfgs = [(min(c[0], 2), c[1] if c[0] < 2 else 0, 1, c[3] if c[2] == 1 else 500, min(c[4], 4), c[5]) for c in cfgs]
+        ev.append(["E", r.choice([49, 64, 100, 150])])
+    if "M" in opts:
+        ev.append(["M", r.choice([1, 2, 3, 5, 9, 14])])
+    tick = (lambda: ["Z", r.choice(R_BOUNDS + [r.randrange(256)])]) if "E" in opts else (lambda: ["T"])
+    mid = 100
+    pend = []
+    if "B" in opts:
+        for k in range(r.choice([1, 1, 2])):
+            sk = 0 if k == 0 else r.randrange(ns)
+            ev.append(["U", sk, mid, hexb([r.randrange(256) for _ in range(r.choice([1, 2, 4]))]),
+                       r.choice([17, 40, 100, 300]), r.choice(R_BOUNDS + [r.randrange(256)])])
+            pend.append((sk, mid))
+            mid += 1
+            if r.random() < 0.3:
+                ev.append(["A", r.choice([0, 1, 250, 1000])])
+    p_send = 0.12 if "E" in opts else 0.30
+    for _ in range(r.randrange(25, 70)):
+        x = r.random()
+        if p_send <= x < 0.44 and "E" in opts:
+            ev.append(tick())       # (a datagram's arrival ends in a prepare call of its own: pings go out before)
+        if x < p_send:
+            sk = r.randrange(1, ns) if r.random() < 0.8 else 0
+            m = rand_msg(r, sk, mid)
+            if m[5].startswith("@"):
+                m[5] = "-"          # keep the datagram short enough to be printed in full
+            pend.append((sk, mid))
+            mid += 1
+            ev.append(m)
+        elif 0.30 <= x < 0.38 and pend:
+            sk, mm = pend.pop(r.randrange(len(pend)))
+            ev.append([r.choice(["K", "K", "R"]), sk, mm])
+        elif 0.38 <= x < 0.44 and "E" in opts:
+            ev.append(["K", r.randrange(ns), "L"])
+        elif 0.44 <= x < 0.48:
+            ev.append(["Q"])
+        ev.append(tick())
+        ev.append(["W", r.choice([0, 0, 0, 0, 0, 0, 1, 3])] if r.random() < 0.93 else ["A", r.choice([0, 1, 100, 999, 1000, 1001])])
+    ev += [tick(), ["Q"]]
+    return {"cfgs": cfgs, "ev": ev, "kind": "timers"}
+
+
 # ---------------------------------------------------------------- the library's own I/O loop
 def gen_ioloop_case(r):
     """messages driven by coap_io_process() itself (epoll_wait interposed: it sleeps exactly as long
